@@ -648,7 +648,9 @@ class VcfReader:
                 if not self.mav or len(record.alts) >= get_max_genotype_alleles():
                     continue
 
-            pos, ref, alts = record.start, str(record.ref), [str(alt) for alt in record.alts]
+            # Bases in REF and ALT are case-insensitive; read and reference bases are upper case
+            pos, ref = record.start, str(record.ref).upper()
+            alts = [str(alt) if str(alt).startswith("<") else str(alt).upper() for alt in record.alts]
             if len(ref) == 1 and all(len(alt) == 1 for alt in alts):
                 n_snvs += 1
             else:
